@@ -107,8 +107,12 @@ Constructs == {
   K("let2", 3, <<"let", S, "a", O, "=", O, "1", O, ";", S, "b", O, "=", O, "a", O, ";", S, "in", S, "b">>),
   K("let_inherit", 3, <<"let", S, "inherit", S, "a", O, ";", S, "in", S, "a">>),
   K("let_let", 3, <<"let", S, "a", O, "=", O, "1", O, ";", S, "in", S, "let", S, "b", O, "=", O, "2", O, ";", S, "in", S, "b">>),
+  K("let3", 3, <<"let", S, "a", O, "=", O, "1", O, ";", S, "in", S, "let", S, "b", O, "=", O, "a", O, ";", S, "in", S, "let", S, "c", O, "=", O, "b", O, ";", S, "in", S, "c">>),
   K("let_set", 3, <<"let", S, "a", O, "=", O, "1", O, ";", S, "in", S, "{", O, "b", O, "=", O, "a", O, ";", O, "}">>),
   K("lam_set", 3, <<"{", O, "a", O, "}", O, ":", S, "{", O, "b", O, "=", O, "a", O, ";", O, "}">>),
+  K("if_ml", 3, <<"if", S, "a", S, "then\n  b\nelse", S, "c">>),
+  K("apply_lam", 1, <<"f", S, "(", O, "x", O, ":", S, "x", O, ")">>),
+  K("list_nested", 0, <<"[", O, "[", O, "a", O, "]", S, "{", O, "}", O, "]">>),
   K("with_list", 3, <<"with", S, "p", O, ";", S, "[", O, "a", S, "b", O, "]">>)
 }
 
@@ -148,6 +152,10 @@ Fillers == {
   F("blank2", "ws", "\n\n\n"),
   F("trail", "ws", "  \n"),
   F("eol", "lc", " # c1\n"),
+  F("eol_blank", "lc", " # c1\n\n"),
+  F("own_then_blank", "lc", "\n# c1\n\n"),
+  F("blank_then_own", "lc", "\n\n# c1\n"),
+  F("eol_own", "lc", " # c1\n# c2\n"),
   F("own", "lc", "\n# c1\n"),
   F("own2", "lc", "\n# c1\n# c2\n"),
   F("own_blank", "lc", "\n\n# c1\n\n"),
